@@ -45,6 +45,15 @@ def make_batches(r, tier):
                 b["glycan_list"] = vals[1:cut]
                 b["file_lines"] = [v["v"] for v in vals[cut:] if v["v"].strip() == v["v"] or True]
             batches.append(b)
+    # batches in which an input is followed by relatives that walk through the same library entries (open forms with and
+    # without a changed chain length, acids, D-/L- heads): the answer must not depend on what a worker converted before
+    fam = ["Man-ol", "ManHep-ol", "Man-ol", "Gal-ol", "GalOct-ol", "Man-onic", "3dManOct-ulosonic", "Man(a1-4)Man-ol", "Gal-ol", "Man-onic",
+           "L-Man-ol", "Man-ol", "XylHex-ol", "Xyl-ol", "Glc-aric", "GlcHep-ol", "Glc-ol", "Glc-aric", "L-Fuc", "Fuc", "D-Fuc", "Fuc a",
+           "3,6-Anhydro-Gal", "Gal", "1,6-Anhydro-Glc", "Glc", "Glc4e", "Glc", "Gal4e", "Neu5Ac", "Neu5Gc", "Neu", "Kdo-ol", "Kdo"]
+    for rep in range(1 if tier == "quick" else 3):
+        vals = [{"t": "str", "v": x} for x in (fam if rep == 0 else r.sample(fam * 2, len(fam) * 2))]
+        batches.append({"full": True, "glycan_list": vals})
+        batches.append({"full": True, "gen": list(reversed(vals))})
     return batches
 
 
@@ -175,6 +184,31 @@ def run(tier):
                     model_bad.append((c, m))
     if drv:
         drv.close()
+    # the delivery paths and worker counts of one batch against each other (not only against the single conversions)
+    by_batch = {}
+    for c in cases:
+        key = json.dumps({k: v for k, v in c.items() if k not in ("mode", "cpu_count", "verbose")}, sort_keys=True)
+        by_batch.setdefault(key, []).append(c)
+    n_cross = 0
+    for key, group in by_batch.items():
+        views = []
+        for c in group:
+            rs = results[id(c)]
+            if rs.get("exc") is not None:
+                continue
+            if c["mode"] in ("return", "generator") and rs.get("pairs") is not None:
+                views.append((c, fmt_lines(rs["pairs"])))
+            elif c["mode"] == "file" and rs.get("file") is not None:
+                views.append((c, rs["file"]))
+            elif c["mode"] in ("stdout", "baddir"):
+                views.append((c, rs["stdout"]))
+        for c, text in views[1:]:
+            n_cross += 1
+            if text != views[0][1]:
+                report.fail({"site": "converter", "kind": "paths-disagree", "mode": c["mode"], "cpu": "1" if c["cpu_count"] == 1 else "parallel"},
+                            {"case": c, "reference_path": {"mode": views[0][0]["mode"], "cpu_count": views[0][0]["cpu_count"]},
+                             "listing": text[:3000], "reference_listing": views[0][1][:3000],
+                             "problem": "two delivery paths / worker counts of the same batch give different listings"})
     if len(report.cov["samples"]) == 0:
         report.cov["samples"] = [{"mode": c["mode"], "cpu_count": c["cpu_count"],
                                   "n_inputs": len(results[id(c)].get("expected", []))} for c in cases[:6]]
